@@ -300,21 +300,25 @@ async def _min_max(
     :param invert: compute ``max`` if ``True`` and ``min`` otherwise
     """
     async with ScopedIter(iterable) as item_iter:
-        best = await anext(item_iter, default=default)
-        # this implies that item_iter is empty and default is __MIN_MAX_DEFAULT
+        best = await anext(item_iter, default=__MIN_MAX_DEFAULT)
+        # this implies that item_iter is empty
         if best is __MIN_MAX_DEFAULT:  # type: ignore
-            name = "max" if invert else "min"
-            raise ValueError(f"{name}() arg is an empty sequence")
+            if default is __MIN_MAX_DEFAULT:  # type: ignore
+                name = "max" if invert else "min"
+                raise ValueError(f"{name}() arg is an empty sequence")
+            # the default is returned as is, it is not subject to key
+            return default
         elif key is None:
             async for item in item_iter:
-                if invert ^ (item < best):
+                # strict comparisons keep the first of several equal items
+                if (item > best) if invert else (item < best):
                     best = item
         else:
             key = _awaitify(key)
             best_key = await key(best)
             async for item in item_iter:
                 item_key = await key(item)
-                if invert ^ (item_key < best_key):
+                if (item_key > best_key) if invert else (item_key < best_key):
                     best = item
                     best_key = item_key
     return best
